@@ -32,9 +32,18 @@ Inductive socc_mode := SoccSame | SoccChild | SoccDefault.
 
 Record config := mkcfg {
   c_rank : nat;          (* D *)
-  c_trivial : bool;      (* element type trivially default constructible and trivially destructible (int) *)
+  (* the element type, by the traits the code branches on (one harness executable per element kind):
+     int {tdc, tdx, quiet}; tracked class {}; struct{int v = 0;} {tdx, quiet}; trivial default constructor with
+     user-provided copy operations {tdc, tdx, quiet} (not std::is_trivial) *)
+  c_tdc : bool;          (* std::is_trivially_default_constructible: default construction is skipped, raw storage is an object *)
+  c_tdx : bool;          (* declared trivially destructible (see c_tdtor) *)
+  c_quiet : bool;        (* trivially copyable: no element operation can fail, no moved-from state *)
   c_pocca : bool; c_pocma : bool; c_pocs : bool; c_ae : bool;
   c_socc : socc_mode }.
+
+(* std::is_trivially_destructible: destroy() is skipped.  A trivially default constructible type is trivially
+   destructible (is_trivially_constructible looks at the destructor too, LWG 2116 as implemented by gcc and clang) *)
+Definition c_tdtor (cfg : config) : bool := c_tdc cfg || c_tdx cfg.
 
 Definition default_alloc : Z := 0.       (* allocator_type{} *)
 Definition std_alloc : Z := -1.          (* std::allocator of the temporaries array<T,D> built by initializer-list constructors *)
@@ -151,7 +160,7 @@ Definition tick (w : site) : M unit := fun s =>
   end.
 (* element events of a trivially copyable element type cannot fail *)
 Definition tick_elem (cfg : config) (w : site) : M unit :=
-  if c_trivial cfg then ret tt else tick w.
+  if c_quiet cfg then ret tt else tick w.
 
 Definition get_block (b : nat) : M block := fun s =>
   match nth_error (s_blocks s) b with
@@ -193,7 +202,7 @@ Definition dealloc (cfg : config) (a : Z) (p : ptr) (n : Z) : M unit :=
                if negb (b_live blk) then Err EDoubleFree
                else if negb (b_size blk =? n) then Err EWrongSize
                else if negb (alloc_eq cfg (b_owner blk) a) then Err EWrongAlloc
-               else if negb (c_trivial cfg) && negb (all_raw (b_cells blk)) then Err ELiveCells
+               else if negb (c_tdtor cfg) && negb (all_raw (b_cells blk)) then Err ELiveCells
                else Ok tt (emit (EvDealloc a b n)
                              (set_blocks s (upd_nth (s_blocks s) b
                                 (mkblock (b_owner blk) (b_size blk) (b_cells blk) false))))
@@ -211,16 +220,16 @@ Definition read1 (cfg : config) (b i : nat) : M Z :=
   c <- get_cell b i ;;
   match c with
   | Alive v | Moved v => ret v
-  | Raw => if c_trivial cfg then ret pat else fail EReadRaw
+  | Raw => if c_tdc cfg then ret pat else fail EReadRaw
   end.
 Definition assign1 (cfg : config) (b i : nat) (v : Z) : M unit :=
   c <- get_cell b i ;;
   match c with
-  | Raw => if c_trivial cfg then set_cell b i (Alive v) else fail EAssignRaw
+  | Raw => if c_tdc cfg then set_cell b i (Alive v) else fail EAssignRaw
   | _ => set_cell b i (Alive v)
   end.
 Definition mark_moved (cfg : config) (b i : nat) : M unit :=
-  if c_trivial cfg then ret tt
+  if c_quiet cfg then ret tt
   else c <- get_cell b i ;;
        match c with Alive v | Moved v => set_cell b i (Moved v) | Raw => ret tt end.
 
@@ -325,7 +334,7 @@ Definition base_blk (a : arr) : M nat :=
 
 (* static_array::destroy (array.hpp:189-193; skipped for trivially destructible elements) then deallocate *)
 Definition release (cfg : config) (a : arr) : M unit :=
-  (if c_trivial cfg || (nel a <=? 0) then ret tt
+  (if c_tdtor cfg || (nel a <=? 0) then ret tt
    else b <- base_blk a ;; destroy_range b 0 (nnel a)) ;;;
   dealloc cfg (a_alloc a) (a_base a) (nel a).
 
@@ -421,7 +430,8 @@ Inductive lop :=
 | OReextentMove (r : nat) (x : bx)
 | OReshape (r : nat) (x : bx)
 | OWrite (r : nat) (k : nat) (v : Z)
-| ODestroy (r : nat).
+| ODestroy (r : nat)
+| OViewAssign (r s : nat) (vr vs : vsrc).   (* view of r = view of s: subarray::operator= (all overloads), elements() = elements() *)
 
 Definition vsrc_cells (as_ : arr) (v : vsrc) : list src :=
   match a_base as_ with PBlk b => map (SCell b) (vs_offs v) | PNull => [] end.
@@ -464,7 +474,7 @@ Definition step (cfg : config) (o : lop) : M unit :=
       slot_free r ;;;
       p <- alloc a (bnumel x) ;;
       (match p with
-       | PBlk b => if c_trivial cfg then ret tt else default_construct_n b 0 (Z.to_nat (bnumel x))
+       | PBlk b => if c_tdc cfg then ret tt else default_construct_n b 0 (Z.to_nat (bnumel x))
        | PNull => ret tt
        end) ;;;
       install r a p x
@@ -609,7 +619,7 @@ Definition step (cfg : config) (o : lop) : M unit :=
          | PBlk b =>
              (match fillv with
               | Some v => construct_loop cfg SReextElem b 0 0 (repeat (SVal v) (Z.to_nat (bnumel x)))
-              | None => if c_trivial cfg then ret tt else value_construct_n b (Z.to_nat (bnumel x))
+              | None => if c_tdc cfg then ret tt else value_construct_n b (Z.to_nat (bnumel x))
               end) ;;;
              let is := bx_inter (arr_bx ar) nx in
              if bnumel is <=? 0 then ret tt
@@ -631,7 +641,7 @@ Definition step (cfg : config) (o : lop) : M unit :=
         set_arr r (with_bx (a_alloc ar) p x) ;;;
         (match p with
          | PNull => ret tt
-         | PBlk b => if c_trivial cfg then ret tt else value_construct_n b (Z.to_nat (bnumel x))
+         | PBlk b => if c_tdc cfg then ret tt else value_construct_n b (Z.to_nat (bnumel x))
          end)
   | OReshape r x =>
       (* array.hpp:1238-1244 *)
@@ -641,6 +651,12 @@ Definition step (cfg : config) (o : lop) : M unit :=
       ar <- get_arr r ;;
       if (Z.of_nat k <? nel ar) then (b <- base_blk ar ;; assign1 cfg b k v) else fail EDomain
   | ODestroy r => p_dtor cfg r
+  | OViewAssign r s vr vs =>
+      (* array_ref.hpp:2126-2165 (subarray::operator=), 975-988 (elements_range_t::operator=): the elements are copy
+         assigned one by one in the canonical order of the two views; nothing is allocated, nothing rolled back *)
+      ar <- get_arr r ;; as_ <- get_arr s ;;
+      if nel ar <=? 0 then ret tt
+      else b <- base_blk ar ;; assign_loop cfg SAssignElem b (vs_offs vr) (vsrc_cells as_ vs)
   end.
 
 (* ------------------------------------------------------------------------------------------ *)
@@ -693,7 +709,7 @@ Definition arr_block (s : state) (a : arr) : option block :=
   | PNull => None
   end.
 Definition cell_init (cfg : config) (c : cell) : bool :=
-  match c with Raw => c_trivial cfg | _ => true end.
+  match c with Raw => c_tdc cfg | _ => true end.
 (* an array seen from outside: its extents are backed by a live block of that many constructed cells *)
 Definition arr_valid (cfg : config) (s : state) (a : arr) : bool :=
   if nel a <=? 0 then true
@@ -739,7 +755,11 @@ Fixpoint in_bx (x : bx) (idx : list Z) : bool :=
 Definition reext_vals (oldx : bx) (oldv : list Z) (newx : bx) (dflt : Z) : list Z :=
   map (fun idx => if in_bx oldx idx then nth (Z.to_nat (rowmajor oldx idx)) oldv dflt else dflt) (all_idx newx).
 
-Definition dflt_val (cfg : config) : Z := if c_trivial cfg then pat else 0.
+(* writes at given positions, in order *)
+Fixpoint put_list (l : list Z) (offs : list nat) (vs : list Z) : list Z :=
+  match offs, vs with o :: offs', v :: vs' => put_list (upd_nth l o v) offs' vs' | _, _ => l end.
+
+Definition dflt_val (cfg : config) : Z := if c_tdc cfg then pat else 0.
 
 Definition vstep (cfg : config) (o : lop) (p : vpool) : vpool :=
   match o with
@@ -781,6 +801,9 @@ Definition vstep (cfg : config) (o : lop) (p : vpool) : vpool :=
   | OReshape r x => vset p r (Some (norm_bx x, snd (vget p r)))
   | OWrite r k v => let '(e, vals) := vget p r in vset p r (Some (e, upd_nth vals k v))
   | ODestroy r => vset p r None
+  | OViewAssign r s vr vs =>
+      let '(e, vals) := vget p r in
+      vset p r (Some (e, put_list vals (vs_offs vr) (at_offs (snd (vget p s)) (vs_offs vs))))
   end.
 Definition run_values (cfg : config) (h : list lop) (p : vpool) : vpool := fold_left (fun q o => vstep cfg o q) h p.
 
